@@ -212,7 +212,7 @@ func (rn *runner) arraySizeCase(k int, r *prng.R) {
 	}
 	wrote := len(w.Bytes())
 	// the model of GetVarSize's type switch: VALUE elements of types with pointer-receiver methods are "other"
-	kindTok := "other"
+	kindTok := "ptr1" // a slice of structures: addressable elements, Serializable by pointer
 	if name[2] == '*' {
 		kindTok = "ser"
 	}
@@ -229,6 +229,13 @@ func (rn *runner) arraySizeCase(k int, r *prng.R) {
 			key = "getvarsize-value-slice"
 		}
 		o.Fail(key, k, "io.GetVarSize(%s of %d elements) = %d, WriteArray writes %d bytes", name, lenOf(coll), got, wrote)
+	}
+	if r.Chance(1, 5) {
+		// an ARRAY passed by value: its elements are not addressable, GetVarSize counts them as 0 bytes (WriteArray
+		// cannot encode such a value at all: nothing to compare with, only the model)
+		arr := [2]transaction.Witness{g.witness(), g.witness()}
+		o.Line(fmt.Sprintf("getvarsize ptr0 %d %d", len(serBytes(&arr[0])), len(serBytes(&arr[1]))), fmt.Sprintf("%d", io.GetVarSize(arr)))
+		o.Count("arraysize:[2]Witness-by-value")
 	}
 	o.Count("arraysize:" + name)
 	o.Seen(fmt.Sprintf("arraysize/%s/%d/%d", name, lenOf(coll), wrote))
@@ -302,3 +309,5 @@ func elemSizes(coll any) []int {
 	}
 	return out
 }
+
+func serBytes(v io.Serializable) []byte { b, _ := encBytes(v); return b }
